@@ -239,6 +239,20 @@ def applyFn (name : String) (args : List Expr) : Option Expr :=
 
 abbrev Res := Option (Expr × List Tok)
 
+/-- the `+` / `-` test of the loop in `_parse_expr`: the operator and the remaining tokens -/
+def addOpOf : List Tok → Option (BinOp × List Tok)
+  | .op .plus :: ts => some (.add, ts)
+  | .op .minus :: ts => some (.sub, ts)
+  | _ => none
+
+/-- the `*` `/` `//` `%` test of the loop in `_parse_term` -/
+def mulOpOf : List Tok → Option (BinOp × List Tok)
+  | .op .star :: ts => some (.mul, ts)
+  | .op .slash :: ts => some (.div, ts)
+  | .op .dslash :: ts => some (.fdiv, ts)
+  | .op .percent :: ts => some (.mod, ts)
+  | _ => none
+
 mutual
 /-- `_parse_expr` -/
 def parseExpr : Nat → List Tok → Res
@@ -250,15 +264,13 @@ def parseExpr : Nat → List Tok → Res
 /-- the `while` loop of `_parse_expr` -/
 def exprLoop : Nat → Expr → List Tok → Res
   | 0, _, _ => none
-  | f + 1, l, .op .plus :: ts =>
-    match parseTerm f ts with
-    | some (r, ts') => exprLoop f (.bin .add l r) ts'
-    | none => none
-  | f + 1, l, .op .minus :: ts =>
-    match parseTerm f ts with
-    | some (r, ts') => exprLoop f (.bin .sub l r) ts'
-    | none => none
-  | _ + 1, l, ts => some (l, ts)
+  | f + 1, l, ts =>
+    match addOpOf ts with
+    | some (o, ts') =>
+      match parseTerm f ts' with
+      | some (r, ts'') => exprLoop f (.bin o l r) ts''
+      | none => none
+    | none => some (l, ts)
 /-- `_parse_term` -/
 def parseTerm : Nat → List Tok → Res
   | 0, _ => none
@@ -269,23 +281,13 @@ def parseTerm : Nat → List Tok → Res
 /-- the `while` loop of `_parse_term` -/
 def termLoop : Nat → Expr → List Tok → Res
   | 0, _, _ => none
-  | f + 1, l, .op .star :: ts =>
-    match parseUnary f ts with
-    | some (r, ts') => termLoop f (.bin .mul l r) ts'
-    | none => none
-  | f + 1, l, .op .slash :: ts =>
-    match parseUnary f ts with
-    | some (r, ts') => termLoop f (.bin .div l r) ts'
-    | none => none
-  | f + 1, l, .op .dslash :: ts =>
-    match parseUnary f ts with
-    | some (r, ts') => termLoop f (.bin .fdiv l r) ts'
-    | none => none
-  | f + 1, l, .op .percent :: ts =>
-    match parseUnary f ts with
-    | some (r, ts') => termLoop f (.bin .mod l r) ts'
-    | none => none
-  | _ + 1, l, ts => some (l, ts)
+  | f + 1, l, ts =>
+    match mulOpOf ts with
+    | some (o, ts') =>
+      match parseUnary f ts' with
+      | some (r, ts'') => termLoop f (.bin o l r) ts''
+      | none => none
+    | none => some (l, ts)
 /-- `_parse_unary` -/
 def parseUnary : Nat → List Tok → Res
   | 0, _ => none
@@ -359,6 +361,148 @@ def parseChars (cs : List Char) : Option Expr :=
     match tokenize cs with
     | some ts => parseTokens ts
     | none => none
+
+/-! ## The documented grammar as derivation trees
+
+    expr     -> term exprTail          exprTail -> ε | ('+' | '-') term exprTail
+    term     -> unary termTail         termTail -> ε | ('*' | '/' | '//' | '%') unary termTail
+    unary    -> '-' unary | power
+    power    -> primary | primary '**' unary
+    primary  -> NUMBER | IDENT | '(' expr ')' | FN1 '(' expr ')' | FN2 '(' expr ',' expr ')'
+              | FNN '(' args ')'
+    args     -> ε | expr argsTail      argsTail -> ε | ',' expr argsTail
+
+  (`x (op x)*` of the docstring is the tail form; the function table with its arities is
+  `_ALLOWED_FUNCTIONS` plus what SymPy accepts.) -/
+
+inductive NT where
+  | expr | exprTail | term | termTail | unary | power | primary | args | argsTail
+  deriving Repr, DecidableEq
+
+inductive AddOp where
+  | plus | minus
+  deriving Repr, DecidableEq
+
+inductive MulOp where
+  | star | slash | dslash | percent
+  deriving Repr, DecidableEq
+
+inductive Fn1 where
+  | floor | ceiling | abs | sign | sqrt
+  deriving Repr, DecidableEq
+
+inductive Fn2 where
+  | mod | Mod
+  deriving Repr, DecidableEq
+
+inductive FnN where
+  | max | Max | min | Min
+  deriving Repr, DecidableEq
+
+def AddOp.tok : AddOp → Tok
+  | .plus => .op .plus | .minus => .op .minus
+def AddOp.bin : AddOp → BinOp
+  | .plus => .add | .minus => .sub
+def MulOp.tok : MulOp → Tok
+  | .star => .op .star | .slash => .op .slash | .dslash => .op .dslash | .percent => .op .percent
+def MulOp.bin : MulOp → BinOp
+  | .star => .mul | .slash => .div | .dslash => .fdiv | .percent => .mod
+def Fn1.name : Fn1 → String
+  | .floor => "floor" | .ceiling => "ceiling" | .abs => "Abs" | .sign => "sign" | .sqrt => "sqrt"
+def Fn1.un : Fn1 → UnOp
+  | .floor => .floor | .ceiling => .ceil | .abs => .abs | .sign => .sign | .sqrt => .sqrt
+def Fn2.name : Fn2 → String
+  | .mod => "mod" | .Mod => "Mod"
+def FnN.name : FnN → String
+  | .max => "max" | .Max => "Max" | .min => "min" | .Min => "Min"
+def FnN.bin : FnN → BinOp
+  | .max => .max | .Max => .max | .min => .min | .Min => .min
+/-- `sympy.Max()` is `-oo`, `sympy.Min()` is `oo` -/
+def FnN.emptyNeg : FnN → Bool
+  | .max => true | .Max => true | .min => false | .Min => false
+
+/-- `Max(*args)` / `Min(*args)` as nested binary operations, left to right -/
+def FnN.apply (f : FnN) : List Expr → Expr
+  | [] => Expr.inf f.emptyNeg
+  | a :: rest => rest.foldl (fun acc x => Expr.bin f.bin acc x) a
+
+/-- derivation trees, indexed by the nonterminal they derive -/
+inductive D : NT → Type where
+  | expr (t : D .term) (tl : D .exprTail) : D .expr
+  | etNil : D .exprTail
+  | etCons (o : AddOp) (t : D .term) (tl : D .exprTail) : D .exprTail
+  | term (u : D .unary) (tl : D .termTail) : D .term
+  | ttNil : D .termTail
+  | ttCons (o : MulOp) (u : D .unary) (tl : D .termTail) : D .termTail
+  | neg (u : D .unary) : D .unary
+  | upow (p : D .power) : D .unary
+  | prim (p : D .primary) : D .power
+  | pow (b : D .primary) (e : D .unary) : D .power
+  | num (n : Nat) : D .primary
+  | ident (s : String) : D .primary
+  | paren (e : D .expr) : D .primary
+  | call1 (f : Fn1) (a : D .expr) : D .primary
+  | call2 (f : Fn2) (a b : D .expr) : D .primary
+  | callN (f : FnN) (args : D .args) : D .primary
+  | argsNil : D .args
+  | argsCons (e : D .expr) (tl : D .argsTail) : D .args
+  | atNil : D .argsTail
+  | atCons (e : D .expr) (tl : D .argsTail) : D .argsTail
+
+/-- the sentence (token list) a derivation tree derives -/
+def D.flatten : D n → List Tok
+  | .expr t tl => t.flatten ++ tl.flatten
+  | .etNil => []
+  | .etCons o t tl => o.tok :: (t.flatten ++ tl.flatten)
+  | .term u tl => u.flatten ++ tl.flatten
+  | .ttNil => []
+  | .ttCons o u tl => o.tok :: (u.flatten ++ tl.flatten)
+  | .neg u => .op .minus :: u.flatten
+  | .upow p => p.flatten
+  | .prim p => p.flatten
+  | .pow b e => b.flatten ++ .op .dstar :: e.flatten
+  | .num n => [.num n]
+  | .ident s => [.ident s]
+  | .paren e => .lparen :: (e.flatten ++ [.rparen])
+  | .call1 f a => .ident f.name :: .lparen :: (a.flatten ++ [.rparen])
+  | .call2 f a b => .ident f.name :: .lparen :: (a.flatten ++ .comma :: (b.flatten ++ [.rparen]))
+  | .callN f args => .ident f.name :: .lparen :: (args.flatten ++ [.rparen])
+  | .argsNil => []
+  | .argsCons e tl => e.flatten ++ tl.flatten
+  | .atNil => []
+  | .atCons e tl => .comma :: (e.flatten ++ tl.flatten)
+
+/-- what a derivation denotes: an expression; for the tails a function of the accumulated left
+    operand (left-associative); for argument lists the list of argument expressions -/
+@[reducible] def Den : NT → Type
+  | .exprTail => Expr → Expr
+  | .termTail => Expr → Expr
+  | .args => List Expr
+  | .argsTail => List Expr
+  | _ => Expr
+
+/-- the standard arithmetic meaning of a derivation tree -/
+def D.sem : (d : D n) → Den n
+  | .expr t tl => (tl.sem : Expr → Expr) (t.sem : Expr)
+  | .etNil => fun (acc : Expr) => acc
+  | .etCons o t tl => fun (acc : Expr) => (tl.sem : Expr → Expr) (.bin o.bin acc (t.sem : Expr))
+  | .term u tl => (tl.sem : Expr → Expr) (u.sem : Expr)
+  | .ttNil => fun (acc : Expr) => acc
+  | .ttCons o u tl => fun (acc : Expr) => (tl.sem : Expr → Expr) (.bin o.bin acc (u.sem : Expr))
+  | .neg u => Expr.un .neg (u.sem : Expr)
+  | .upow p => (p.sem : Expr)
+  | .prim p => (p.sem : Expr)
+  | .pow b e => Expr.bin .pow (b.sem : Expr) (e.sem : Expr)
+  | .num n => Expr.num n
+  | .ident s => Expr.sym s
+  | .paren e => (e.sem : Expr)
+  | .call1 f a => Expr.un f.un (a.sem : Expr)
+  | .call2 _ a b => Expr.bin .mod (a.sem : Expr) (b.sem : Expr)
+  | .callN f args => f.apply (args.sem : List Expr)
+  | .argsNil => ([] : List Expr)
+  | .argsCons e tl => ((e.sem : Expr) :: (tl.sem : List Expr) : List Expr)
+  | .atNil => ([] : List Expr)
+  | .atCons e tl => ((e.sem : Expr) :: (tl.sem : List Expr) : List Expr)
 
 /-! ## Printer (minimal parentheses) -/
 
